@@ -41,10 +41,15 @@ def _collapse_invariants(
     # region Invariants
     invariants = []  # type: List[Contract]
 
-    # Add invariants of the bases
+    # Add invariants of the bases.
+    #
+    # The very same invariant can reach a class over multiple inheritance paths (*e.g.*, in a diamond).
+    # We keep only its first occurrence so that it is checked only once.
     for base in bases:
         if hasattr(base, invariants_dunder):
-            invariants.extend(getattr(base, invariants_dunder))
+            for invariant in getattr(base, invariants_dunder):
+                if not any(invariant is another for another in invariants):
+                    invariants.append(invariant)
 
     # Add invariants in the current namespace.
     #
@@ -109,9 +114,24 @@ def _collapse_preconditions(
             ).format(func.__qualname__)
         )
 
+    # The very same group can reach a class over multiple inheritance paths (*e.g.*, in a diamond).
+    # We keep only its first occurrence so that it is tried only once.
+    #
     # The groups of the bases are copied so that a precondition which is added to the function later on
     # (by decorating it once more after the class has been created) does not end up in the group of the base.
-    return [list(group) for group in base_preconditions] + preconditions
+    collapsed = []  # type: List[List[Contract]]
+    for group in base_preconditions:
+        if not any(
+            len(group) == len(another_group)
+            and all(
+                contract is another_contract
+                for contract, another_contract in zip(group, another_group)
+            )
+            for another_group in collapsed
+        ):
+            collapsed.append(list(group))
+
+    return collapsed + preconditions
 
 
 def _collapse_snapshots(
@@ -160,11 +180,15 @@ def _collapse_postconditions(
     """
     # The function might have been collapsed with the bases already (*e.g.*, ``dataclasses.dataclass(slots=True)``
     # re-creates the class from the namespace of the original class).
-    return base_postconditions + [
-        contract
-        for contract in postconditions
-        if not any(contract is base_contract for base_contract in base_postconditions)
-    ]
+    #
+    # The very same postcondition can also reach a class over multiple inheritance paths (*e.g.*, in a diamond).
+    # We keep only its first occurrence so that it is checked only once.
+    collapsed = []  # type: List[Contract]
+    for contract in base_postconditions + postconditions:
+        if not any(contract is another_contract for another_contract in collapsed):
+            collapsed.append(contract)
+
+    return collapsed
 
 
 def _base_provides(base: type, key: str) -> bool:
